@@ -145,7 +145,7 @@ fn check(o: &Opts) -> i32 {
             if o.ops.is_none() || o.cases.is_none() {
                 run_seq::run_enum(o, &mut rep);
             }
-            if o.prop == "C12" && o.ops.is_none() && o.cases.is_none() {
+            if matches!(o.prop.as_str(), "C12" | "C04") && o.ops.is_none() && o.cases.is_none() {
                 engines.push("E1c-churn (long attach/detach histories against a reference model)");
                 run_churn::run(o, &mut rep);
             }
@@ -258,7 +258,12 @@ fn finish(o: &Opts, rep: Report, engines: &[&str], t0: Instant) -> i32 {
     }
     // coverage floors: every oracle clause of the property must have been exercised
     if code == 0 {
+        let restricted = o.ops.is_some() || o.cases.is_some();
         for k in required_clauses(&o.prop) {
+            if restricted && (k.starts_with("churn.") || k.starts_with("pipelines:")) {
+                // a run restricted with --ops / --cases (development only) skips those engines
+                continue;
+            }
             if rep.exercised.get(*k).copied().unwrap_or(0) == 0 {
                 println!("INCONCLUSIVE property={} reason=oracle clause `{}` was never exercised by this run", o.prop, k);
                 code = 2;
@@ -357,17 +362,17 @@ fn finish(o: &Opts, rep: Report, engines: &[&str], t0: Instant) -> i32 {
 
 fn required_clauses(prop: &str) -> &'static [&'static str] {
     match prop {
-        "C04" => &["c04.subscription", "c04.relay", "c04.for_each"],
+        "C04" => &["c04.subscription", "c04.relay", "c04.for_each", "churn.attach"],
         "C05" => &["c05.error-while-live"],
-        "C06" => &["pipe-macro-left-to-right-test", "stage map+flatten", "stage concat", "pipelines over an unbounded iterator", "stage same source value subscribed repeatedly (concat)", "stage same source value subscribed repeatedly (flatten)"],
+        "C06" => &["pipe-macro-left-to-right-test", "stage map+flatten", "stage concat", "pipelines over an unbounded iterator", "stage same source value subscribed repeatedly (concat)", "stage same source value subscribed repeatedly (flatten)", "stage same source value subscribed again from inside its own deliveries (overlapping subscriptions)"],
         "C07" => &["c07.compare", "c07.closure-calls", "c07.take-complete", "c07.take-upstream-stop", "c07.upstream-complete", "tree.unary-instance-steps"],
         "C08" => &["c08.greeting", "c08.late-greeter-after-over", "data-sequence", "fanin.completion", "fanin.pull-reaches-member", "tree.merge-instance-steps"],
         "C09" => &["c09.boundary", "c09.outstanding-pull", "data-sequence", "fanin.completion", "tree.concat-instance-steps"],
         "C10" => &["c10.greeting", "c10.all-ended-with-a-failure", "data-sequence", "fanin.completion", "fanin.pull-reaches-member", "tree.combine-instance-steps"],
         "C11" => &["c11.inner-emitted", "c11.switch", "c11.completion", "c11.pull-routing", "data-sequence", "tree.flatten-instance-steps"],
-        "C12" => &["c12.attach", "c12.detach", "c12.fanout", "c12.resubscription"],
+        "C12" => &["c12.attach", "c12.detach", "c12.fanout", "c12.resubscription", "churn.attach", "churn.datum-fanout", "churn.upstream-subscriptions"],
         "C13" => &["c13.solo-replays", "stage same source value subscribed repeatedly (concat)", "stage same source value subscribed repeatedly (flatten)"],
-        "C14" => &["c14.prefix", "c14.quiescent"],
+        "C14" => &["c14.prefix", "c14.quiescent", "pipelines: demand at the output judged"],
         "C15" => &["c15.step", "c15.next-call", "c15.exhausted", "c15.deep-iterator-items-on-256KiB-stack"],
         "C16" => &["interval.ticks-delivered", "interval.cases-with-injected-spawn-failure", "interval.cases-with-disposal"],
         "C18" | "C19" => &["hook-yield-points"],
